@@ -214,31 +214,44 @@ theorem leafOk_lookupAll_std {t : List Leaf} (h : SnapOk t) (k : Key) : LeafOk (
 theorem valOf_mkPhrase (t : Text) (v : Val) : valOf (mkPhrase t v) = v := by
   simp [valOf, mkPhrase]
 
-theorem mem_btreeRange {bt : List (PKey × Val)} (hr : ∀ e ∈ bt, inRange e.1.2 = true) {k : Key} {p : Phrase} :
+theorem btHas_iff {bt : List (PKey × Val)} {k : PKey} : btHas bt k = true ↔ ∃ v, (k, v) ∈ bt := by
+  unfold btHas
+  simp only [List.any_eq_true, beq_iff_eq]
+  constructor
+  · rintro ⟨e, he, hk⟩
+    refine ⟨e.2, ?_⟩
+    rw [← hk]; exact he
+  · rintro ⟨v, hv⟩; exact ⟨(k, v), hv, rfl⟩
+
+theorem btHas_false {bt : List (PKey × Val)} {k : PKey} : btHas bt k = false ↔ ∀ v, (k, v) ∉ bt := by
+  rw [← Bool.not_eq_true, btHas_iff]
+  simp
+
+theorem mem_btreeRange {bt : List (PKey × Val)} {k : Key} {p : Phrase} :
     p ∈ btreeRange bt k ↔ ∃ v, ((k, p.text), v) ∈ bt ∧ p = mkPhrase p.text v := by
   unfold btreeRange
-  simp only [List.mem_map, List.mem_filter, Bool.and_eq_true, beq_iff_eq]
+  simp only [List.mem_map, List.mem_filter, beq_iff_eq]
   constructor
-  · rintro ⟨e, ⟨he, hk, _⟩, rfl⟩
+  · rintro ⟨e, ⟨he, hk⟩, rfl⟩
     refine ⟨e.2, ?_, rfl⟩
     have : e = ((k, e.1.2), e.2) := by rw [← hk]
     simp only [mkPhrase]
     rw [← this]; exact he
   · rintro ⟨v, hm, hp⟩
-    exact ⟨((k, p.text), v), ⟨hm, rfl, hr _ hm⟩, hp.symm⟩
+    exact ⟨((k, p.text), v), ⟨hm, rfl⟩, hp.symm⟩
 
 theorem leafOk_btreeRange {bt : List (PKey × Val)} (h : KeysOk bt) (k : Key) : LeafOk (btreeRange bt k) := by
   unfold btreeRange LeafOk
   rw [List.pairwise_map]
-  have h1 : (bt.filter (fun e => e.1.1 == k && inRange e.1.2)).Pairwise (fun a b => a.1 ≠ b.1) :=
+  have h1 : (bt.filter (fun e => e.1.1 == k)).Pairwise (fun a b => a.1 ≠ b.1) :=
     List.Pairwise.filter _ h
   refine List.Pairwise.imp_of_mem ?_ h1
   intro a b ha hb hab
-  simp only [List.mem_filter, Bool.and_eq_true, beq_iff_eq] at ha hb
+  simp only [List.mem_filter, beq_iff_eq] at ha hb
   simp only [mkPhrase]
   intro e
   apply hab
-  exact Prod.ext (by rw [ha.2.1, hb.2.1]) e
+  exact Prod.ext (by rw [ha.2, hb.2]) e
 
 end TrieBuf
 
